@@ -18,6 +18,15 @@ func init() {
 }
 
 func AsmYCbCrToGray(c *image.YCbCr, pixels []float32) {
+	// The vector loop reads chroma at the luma index and writes row y at y*YStride: that is the layout of a
+	// 4:4:4 image that starts at the origin with tightly packed rows of a multiple of 8 pixels. Any other layout
+	// (chroma subsampling, sub-image, padded rows) takes the portable conversion.
+	w := c.Rect.Dx()
+	if c.SubsampleRatio != image.YCbCrSubsampleRatio444 || c.Rect.Min != (image.Point{}) ||
+		c.YStride != w || c.CStride != w || w%8 != 0 || w != c.Rect.Dy() || len(pixels) < w*w {
+		yCbCrToGrayAlt(c, pixels)
+		return
+	}
 	asmYCbCrToGray(pixels,
 		c.Rect.Min.X, c.Rect.Min.Y, c.Rect.Max.X, c.Rect.Max.Y,
 		c.Y, c.Cb, c.Cr, c.YStride, c.CStride)
